@@ -60,6 +60,9 @@ impl<'de> Deserialize<'de> for Doc {
 pub struct Intent {
     pub hid: String,
     pub args: Value,
+    /// the program the document was built for ("" = whatever lives there)
+    #[serde(default)]
+    pub cid: String,
 }
 
 #[derive(Serialize, Deserialize, Clone, Debug, PartialEq)]
